@@ -71,7 +71,13 @@ VChunk(ev) ==
             (IF SelfOverlap(l) THEN "lift:selfoverlap-order" ELSE "rechunk:bases")
        ELSE "ok"
 
-Verdict(ev) == CASE ev[1] = "lift" -> VLift(ev) [] ev[1] = "chunk" -> VChunk(ev) [] OTHER -> "unknown-op"
+(* ["lift1", how, root chars, Ps, child, oneStep outcome] : the top level was DERIVED by the library (reverse_complement,
+   possibly sliced afterwards) from a sequence that knows its location on its parent; Ps ends with the equivalent
+   placement.  One step up must be the base-by-base composition with that placement. *)
+VLift1(ev) == LET Ps == ev[4] d == Len(ev[4]) IN
+  LiftedOK(ev[6], Ps, ev[5], d, d - 1, ev[3], FALSE, "derived-level:lift-one", 0)
+
+Verdict(ev) == CASE ev[1] = "lift1" -> VLift1(ev) [] ev[1] = "lift" -> VLift(ev) [] ev[1] = "chunk" -> VChunk(ev) [] OTHER -> "unknown-op"
 Bad == {i \in DOMAIN Trace : Verdict(Trace[i]) # "ok"}
 ASSUME \A i \in Bad : PrintT(<<"BAD", i, Verdict(Trace[i])>>)
 ASSUME PrintT(<<"DONE", Len(Trace), Cardinality(Bad)>>)
